@@ -529,6 +529,12 @@ func ruleDigitKill(c *Ctx) {
 					}
 				}
 			}
+			if !folded {
+				// eager folding: every assignment of the digit anywhere in the function is
+				// followed, in its own block and before the next assignment, by the fold;
+				// then no unfolded value can reach this overwrite.
+				folded = p.alwaysFoldedAfter(fd, do, dkey, sv)
+			}
 			c.check(folded, key, as, "old guard digit folded into the sticky flag before it is overwritten",
 				name+": the guard digit is overwritten in a loop without first folding a non-zero old digit into the sticky flag (`if digit != 0 { trunc = 1 }` must precede the division)", fp...)
 		})
@@ -875,4 +881,167 @@ func ruleComposeExact(c *Ctx) {
 		return true
 	})
 	c.check(bad == "", "compose.noround", fd, "no rounding function is called", "Decimal.Compose calls "+bad+": it must be exact or fail", "C14")
+}
+
+// isStickyFold reports whether s is `if digit != 0 { sticky = nonzero }`.
+func (p *Prog) isStickyFold(s ast.Stmt, dkey string, sv map[string]string) bool {
+	ifs, ok := s.(*ast.IfStmt)
+	if !ok || ifs.Else != nil || ifs.Init != nil || len(ifs.Body.List) != 1 {
+		return false
+	}
+	if op, ok := p.isZeroTest(ifs.Cond, dkey); !ok || op != token.NEQ {
+		return false
+	}
+	a2, ok := ifs.Body.List[0].(*ast.AssignStmt)
+	if !ok || len(a2.Lhs) != 1 || len(a2.Rhs) != 1 || a2.Tok != token.ASSIGN {
+		return false
+	}
+	if _, isSticky := sv[p.exprKey(a2.Lhs[0])]; !isSticky {
+		return false
+	}
+	if v, ok := p.constInt64(a2.Rhs[0]); ok && v != 0 {
+		return true
+	}
+	cv := p.constOf(a2.Rhs[0])
+	return cv != nil && cv.String() == "true"
+}
+
+// alwaysFoldedAfter reports whether every statement of fd that assigns the digit do (other than a
+// constant zero) is followed in its own block, before anything else assigns the digit or leaves the
+// block, by the sticky fold.
+func (p *Prog) alwaysFoldedAfter(fd *ast.FuncDecl, do types.Object, dkey string, sv map[string]string) bool {
+	ok := true
+	found := false
+	var visit func(list []ast.Stmt)
+	visit = func(list []ast.Stmt) {
+		for i, s := range list {
+			if as, isAs := s.(*ast.AssignStmt); isAs && p.assignsTo(s, dkey) {
+				allZero := len(as.Lhs) == len(as.Rhs)
+				if allZero {
+					for j, l := range as.Lhs {
+						if p.exprKey(l) == dkey {
+							v, isC := p.constInt64(as.Rhs[j])
+							allZero = isC && v == 0
+						}
+					}
+				}
+				if !allZero {
+					found = true
+					f := false
+					for _, t := range list[i+1:] {
+						if p.isStickyFold(t, dkey, sv) {
+							f = true
+							break
+						}
+						if p.assignsTo(t, dkey) || !straightStmt(t) {
+							break
+						}
+					}
+					if !f {
+						ok = false
+					}
+				}
+				continue
+			}
+			switch x := s.(type) {
+			case *ast.BlockStmt:
+				visit(x.List)
+			case *ast.IfStmt:
+				if x.Init != nil && p.assignsTo(x.Init, dkey) {
+					ok = false
+				}
+				visit(x.Body.List)
+				for e := x.Else; e != nil; {
+					switch y := e.(type) {
+					case *ast.BlockStmt:
+						visit(y.List)
+						e = nil
+					case *ast.IfStmt:
+						visit(y.Body.List)
+						e = y.Else
+					default:
+						e = nil
+					}
+				}
+			case *ast.ForStmt:
+				if (x.Init != nil && p.assignsTo(x.Init, dkey)) || (x.Post != nil && p.assignsTo(x.Post, dkey)) {
+					ok = false
+				}
+				visit(x.Body.List)
+			case *ast.RangeStmt:
+				if (x.Key != nil && p.exprKey(x.Key) == dkey) || (x.Value != nil && p.exprKey(x.Value) == dkey) {
+					ok = false
+				}
+				visit(x.Body.List)
+			case *ast.SwitchStmt:
+				for _, cc := range x.Body.List {
+					visit(cc.(*ast.CaseClause).Body)
+				}
+			case *ast.LabeledStmt:
+				visit([]ast.Stmt{x.Stmt})
+			default:
+				if p.assignsTo(s, dkey) {
+					ok = false
+				}
+			}
+		}
+	}
+	visit(fd.Body.List)
+	// the variable is a pure remainder: it is read only by the folds themselves. (A guard digit that is
+	// also handed to the rounding step must not be folded eagerly - it would count twice.)
+	foldConds := map[ast.Node]bool{}
+	lhs := map[*ast.Ident]bool{}
+	ast.Inspect(fd.Body, func(n ast.Node) bool {
+		switch x := n.(type) {
+		case *ast.IfStmt:
+			if p.isStickyFold(x, dkey, sv) {
+				foldConds[x.Cond] = true
+			}
+		case *ast.AssignStmt:
+			for _, l := range x.Lhs {
+				if id, isId := ast.Unparen(l).(*ast.Ident); isId {
+					lhs[id] = true
+				}
+			}
+		}
+		return true
+	})
+	var inFold int
+	var walk func(n ast.Node)
+	walk = func(n ast.Node) {
+		ast.Inspect(n, func(m ast.Node) bool {
+			if m == nil {
+				return true
+			}
+			if m != n && foldConds[m] {
+				inFold++
+				walk(m)
+				inFold--
+				return false
+			}
+			if id, isId := m.(*ast.Ident); isId && p.Info.Uses[id] == do && !lhs[id] && inFold == 0 {
+				ok = false
+			}
+			return true
+		})
+	}
+	walk(fd.Body)
+	// the digit's address must not escape
+	ast.Inspect(fd.Body, func(n ast.Node) bool {
+		if ue, isU := n.(*ast.UnaryExpr); isU && ue.Op == token.AND && p.objOf(ue.X) == do {
+			ok = false
+		}
+		return true
+	})
+	return ok && found
+}
+
+// straightStmt reports whether control always continues to the next statement of the block after s
+// (assignments, declarations, inc/dec and expression statements that are not panics).
+func straightStmt(s ast.Stmt) bool {
+	switch s.(type) {
+	case *ast.AssignStmt, *ast.DeclStmt, *ast.IncDecStmt:
+		return true
+	}
+	return false
 }
